@@ -142,8 +142,10 @@ class C20(Prop):
             with open(p, 'w') as fh:
                 fh.write('' if f.endswith('_SUCCESS') else os.path.basename(f) + '\n')
         expr = case['expr'].replace('@BASE@', base)
+        styles = set()
         for it in expr.split(','):
             s = it.strip()
+            styles.add('abs' if s.replace('file://', '').startswith('/') else 'dot' if s.replace('file://', '').startswith('./') else 'rel')
             ctx.note('style:' + ('abs' if s.replace('file://', '').startswith('/') else 'dot' if s.replace('file://', '').startswith('./') else 'rel'))
             ctx.note('wild' if ('*' in s or '?' in s) else 'literal')
         os.chdir(base)
@@ -161,6 +163,14 @@ class C20(Prop):
                     back = exc(e)
         finally:
             os.chdir(self.cwd0)
+        if isinstance(back, list) and not isinstance(got, dict) and len(styles) == 1:
+            # the property itself, independent of how the library spells the names it resolved: when the caller spells every
+            # item the same way (all relative, all ./-anchored or all absolute) the files are read in the sorted order of their
+            # PATHS ('./x.dat' and 'x.dat' are the same path; a mixture of spellings chosen by the caller is left alone)
+            by_path = [os.path.basename(q) for q in sorted(os.path.normpath(q) for q in got) if not q.endswith('_SUCCESS')]
+            if back != by_path:
+                return Mismatch('readers do not process the resolved files in sorted path order', back, by_path, 'C20:order:paths',
+                                relation='spec')
         r = ctx.driver.ask({'p': 'C20', 'op': 'resolve', 'files_rel': case['files'], 'base': base, 'expr': expr})
         if sorted(r['model']) != sorted(r['spec']):
             return Mismatch('Lean resolver differs from the filter SPEC (theorem hypothesis violated?)', r['model'], r['spec'], 'model-spec')
